@@ -114,6 +114,12 @@ static long wait_ppm = 1000000;   /* timed waits and sleeps last this many milli
 static long read_chunk = 0;       /* reads of regular files deliver at most 1..read_chunk bytes per call */
 static long read_eintr = 0;       /* the first n reads of regular files fail with EINTR */
 static uint64_t read_state = 0;
+static long crash_at = 0;         /* the process is killed at its crash_at-th durable-state operation (0: never) */
+static long durable_ops = 0;
+static void durable_op(const char *what);
+static long pause_at = 0;         /* the process stalls for pause_ms at its pause_at-th durable-state operation */
+static long pause_ms = 0;
+static char pause_marker[4096];
 
 static void set_key_hex(const char *k);
 static void set_stalls(const char *list);
@@ -152,8 +158,16 @@ static void init_once(void) {
     if (rc) read_chunk = strtol(rc, NULL, 10);
     const char *re = getenv("GRAMSIM_READ_EINTR");
     if (re) read_eintr = strtol(re, NULL, 10);
+    const char *ca = getenv("GRAMSIM_CRASH_AT");
+    if (ca) crash_at = strtol(ca, NULL, 10);
+    const char *pa = getenv("GRAMSIM_PAUSE_AT");
+    if (pa) pause_at = strtol(pa, NULL, 10);
+    const char *pm = getenv("GRAMSIM_PAUSE_MS");
+    if (pm) pause_ms = strtol(pm, NULL, 10);
+    const char *pk = getenv("GRAMSIM_PAUSE_MARKER");
+    if (pk) strncpy(pause_marker, pk, sizeof pause_marker - 1);
     const char *l = getenv("GRAMSIM_LOG");
-    if (l) log_fd = open(l, O_WRONLY | O_CREAT | O_APPEND | O_CLOEXEC, 0644);
+    if (l) log_fd = (int)raw6(SYS_openat, AT_FDCWD, (long)l, O_WRONLY | O_CREAT | O_APPEND | O_CLOEXEC, 0644, 0, 0);
 }
 
 static void log_call(size_t len, unsigned flags, long ret) {
@@ -161,8 +175,7 @@ static void log_call(size_t len, unsigned flags, long ret) {
     char line[96];
     int n = snprintf(line, sizeof line, "%zu %u %ld\n", len, flags, ret);
     if (n > 0) {
-        ssize_t w = write(log_fd, line, (size_t)n);
-        (void)w;
+        raw6(SYS_write, log_fd, (long)line, (long)n, 0, 0, 0);
     }
 }
 
@@ -260,7 +273,7 @@ static void forkserver(char **argv) {
     char linger_list[256] = "";
     size_t heap = 0, map = 0;
     long p_eintr = 0, p_noinsecure = 0, p_chunk = 0, p_pid = 0, p_rss = 0;
-    long p_wait = 1000000, p_rchunk = 0, p_reintr = 0;
+    long p_wait = 1000000, p_rchunk = 0, p_reintr = 0, p_crash = 0;
     unsigned long long p_clock = 0, p_step = 0;
     int have_clock = 0;
     /* pending argv / env edits of the next launch */
@@ -287,6 +300,7 @@ static void forkserver(char **argv) {
         else if (!strncmp(line, "PID ", 4)) p_pid = strtol(line + 4, NULL, 10);
         else if (!strncmp(line, "RSS ", 4)) p_rss = strtol(line + 4, NULL, 10);
         else if (!strncmp(line, "WAIT ", 5)) p_wait = strtol(line + 5, NULL, 10);
+        else if (!strncmp(line, "CRASH ", 6)) p_crash = strtol(line + 6, NULL, 10);
         else if (!strncmp(line, "READ ", 5)) { char *end = NULL; p_rchunk = strtol(line + 5, &end, 10); p_reintr = end ? strtol(end, NULL, 10) : 0; }
         else if (!strncmp(line, "STALL ", 6)) { strncpy(stall_list, line + 6, sizeof stall_list - 1); }
         else if (!strncmp(line, "LINGER ", 7)) { strncpy(linger_list, line + 7, sizeof linger_list - 1); }
@@ -322,13 +336,13 @@ static void forkserver(char **argv) {
                 clock_owned = have_clock; clock_base = p_clock; clock_step = p_step; clock_reads = 0; clock_extra = 0;
                 fake_pid = p_pid;
                 fake_rss_kib = p_rss;
-                wait_ppm = p_wait; read_chunk = p_rchunk; read_eintr = p_reintr; read_state = 0;
+                wait_ppm = p_wait; read_chunk = p_rchunk; read_eintr = p_reintr; read_state = 0; crash_at = p_crash; durable_ops = 0;
                 cpu_readings = 0;
                 tid_next = 0;
                 tid_index = -1;
                 set_stalls(stall_list);
                 set_lingers(linger_list);
-                log_fd = log_path[0] ? open(log_path, O_WRONLY | O_CREAT | O_APPEND | O_CLOEXEC, 0644) : -1;
+                log_fd = log_path[0] ? (int)raw6(SYS_openat, AT_FDCWD, (long)log_path, O_WRONLY | O_CREAT | O_APPEND | O_CLOEXEC, 0644, 0, 0) : -1;
                 displace(heap, map);
                 return; /* on to the executable's initialisers and main */
             }
@@ -349,7 +363,7 @@ static void forkserver(char **argv) {
             for (int i = 1; i < 16; i++) { free(arg_val[i]); arg_val[i] = NULL; }
             n_env_set = n_env_unset = 0;
             heap = map = 0; p_eintr = p_noinsecure = p_chunk = p_pid = p_rss = 0; have_clock = 0;
-            p_wait = 1000000; p_rchunk = p_reintr = 0;
+            p_wait = 1000000; p_rchunk = p_reintr = 0; p_crash = 0;
             out_path[0] = err_path[0] = log_path[0] = cwd[0] = key_hex[0] = stall_list[0] = linger_list[0] = 0;
         }
     }
@@ -397,8 +411,7 @@ ssize_t getrandom(void *buf, size_t buflen, unsigned int flags) {
 
 static void log_mark(const char *mark) {
     if (log_fd < 0) return;
-    ssize_t w = write(log_fd, mark, strlen(mark));
-    (void)w;
+    raw6(SYS_write, log_fd, (long)mark, (long)strlen(mark), 0, 0, 0);
 }
 
 /* Simulated time: seconds since the epoch chosen by the plan, advancing by a fixed step per read. */
@@ -581,7 +594,7 @@ static int memfd_with(const char *data, size_t len) {
     if (fd < 0) return -1;
     size_t off = 0;
     while (off < len) {
-        ssize_t w = write(fd, data + off, len - off);
+        ssize_t w = (ssize_t)raw6(SYS_write, fd, (long)(data + off), (long)(len - off), 0, 0, 0);
         if (w <= 0) { close(fd); return -1; }
         off += (size_t)w;
     }
@@ -698,7 +711,7 @@ static int patched_proc_file(const char *path) {
     }
     int fd = (int)syscall(SYS_memfd_create, "gramsim-proc", 0);
     if (fd < 0) return -1;
-    if (write(fd, out, o) != (ssize_t)o) { close(fd); return -1; }
+    if (raw6(SYS_write, fd, (long)out, (long)o, 0, 0, 0) != (long)o) { close(fd); return -1; }
     lseek(fd, 0, SEEK_SET);
     log_mark("P\n");
     return fd;
@@ -715,6 +728,7 @@ int open64(const char *path, int flags, ...) {
         int fd = simulated_special_file(path);
         if (fd >= 0) return fd;
     }
+    if (ready && (flags & O_CREAT)) durable_op("create");
     return (int)syscall(SYS_openat, AT_FDCWD, path, flags | O_LARGEFILE, mode);
 }
 
@@ -729,6 +743,7 @@ int open(const char *path, int flags, ...) {
         int fd = simulated_special_file(path);
         if (fd >= 0) return fd;
     }
+    if (ready && (flags & O_CREAT)) durable_op("create");
     return (int)syscall(SYS_openat, AT_FDCWD, path, flags, mode);
 }
 
@@ -999,6 +1014,99 @@ int timer_settime(timer_t timerid, int flags, const struct itimerspec *new_value
         return real(timerid, flags & ~TIMER_ABSTIME, &scaled, old_value);
     }
     return real(timerid, flags, new_value, old_value);
+}
+
+/* ---- Crash points -----------------------------------------------------------------------------
+   A launch can be killed at any moment (Ctrl-C, the OOM killer, power loss); only what it had
+   made durable by then survives. Under the simulator a launch that has a crash point dies by
+   SIGKILL at its crash_at-th durable-state operation: a write to a regular file other than its
+   standard streams (torn: half of the bytes are written first), the creation of a file, a
+   rename, an unlink, a mkdir or an fsync. gram itself performs none of these, so on the
+   unchanged tree a crash point never fires. */
+/* A stalled process: at its pause_at-th durable-state operation the process says so (marker file)
+   and stands still for pause_ms of real time, holding whatever it holds (a lock, a half-written
+   record), while the simulator runs another launch of the same command next to it. */
+static void stall_here(const char *what) {
+    char line[64];
+    int n = snprintf(line, sizeof line, "H %ld %s\n", durable_ops, what);
+    if (n > 0) log_mark(line);
+    if (pause_marker[0]) {
+        int fd = (int)raw6(SYS_openat, AT_FDCWD, (long)pause_marker, O_WRONLY | O_CREAT, 0644, 0, 0);
+        if (fd >= 0) raw6(SYS_close, fd, 0, 0, 0, 0, 0);
+    }
+    struct timespec ts = { pause_ms / 1000, (pause_ms % 1000) * 1000000L };
+    while (raw6(SYS_nanosleep, (long)&ts, (long)&ts, 0, 0, 0, 0) == -EINTR) {}
+}
+
+static void durable_op(const char *what) {
+    if ((!crash_at && !pause_at) || !fake_pid) return;
+    long k = __atomic_add_fetch(&durable_ops, 1, __ATOMIC_SEQ_CST);
+    if (pause_at && k == pause_at) { stall_here(what); return; }
+    if (k == crash_at) {
+        char line[64];
+        int n = snprintf(line, sizeof line, "K %ld %s\n", k, what);
+        if (n > 0) log_mark(line);
+        raw6(SYS_kill, raw6(SYS_getpid, 0, 0, 0, 0, 0, 0), SIGKILL, 0, 0, 0, 0);
+        for (;;) raw6(SYS_pause, 0, 0, 0, 0, 0, 0);
+    }
+}
+
+ssize_t write(int fd, const void *buf, size_t count) {
+    if (ready && (crash_at || pause_at) && fd > 2 && fd != log_fd && count > 0) {
+        struct stat st;
+        if (raw6(SYS_fstat, fd, (long)&st, 0, 0, 0, 0) == 0 && S_ISREG(st.st_mode)) {
+            if (crash_at && durable_ops + 1 == crash_at && count > 1) raw6(SYS_write, fd, (long)buf, (long)(count / 2), 0, 0, 0); /* torn */
+            if (pause_at && durable_ops + 1 == pause_at && count > 1) {
+                /* the first half is visible to others while this process stands still */
+                long half = raw6(SYS_write, fd, (long)buf, (long)(count / 2), 0, 0, 0);
+                durable_op("write");
+                if (half > 0) { buf = (const char *)buf + half; count -= (size_t)half; }
+                long r2 = raw6(SYS_write, fd, (long)buf, (long)count, 0, 0, 0);
+                if (r2 < 0) { errno = (int)-r2; return -1; }
+                return (ssize_t)(r2 + (half > 0 ? half : 0));
+            }
+            durable_op("write");
+        }
+    }
+    long r = raw6(SYS_write, fd, (long)buf, (long)count, 0, 0, 0);
+    if (r < 0) { errno = (int)-r; return -1; }
+    return (ssize_t)r;
+}
+
+int rename(const char *from, const char *to) {
+    if (ready) durable_op("rename");
+    long r = raw6(SYS_rename, (long)from, (long)to, 0, 0, 0, 0);
+    if (r < 0) { errno = (int)-r; return -1; }
+    return 0;
+}
+
+int unlink(const char *path) {
+    if (ready) durable_op("unlink");
+    long r = raw6(SYS_unlink, (long)path, 0, 0, 0, 0, 0);
+    if (r < 0) { errno = (int)-r; return -1; }
+    return 0;
+}
+
+int mkdir(const char *path, mode_t mode) {
+    if (ready) durable_op("mkdir");
+    long r = raw6(SYS_mkdir, (long)path, (long)mode, 0, 0, 0, 0);
+    if (r < 0) { errno = (int)-r; return -1; }
+    return 0;
+}
+
+#include <sys/file.h>
+int flock(int fd, int op) {
+    long r = raw6(SYS_flock, fd, op, 0, 0, 0, 0);
+    if (r < 0) { errno = (int)-r; return -1; }
+    if (ready && (op & (LOCK_EX | LOCK_SH))) durable_op("lock"); /* stalls while holding the lock */
+    return 0;
+}
+
+int fsync(int fd) {
+    if (ready) durable_op("fsync");
+    long r = raw6(SYS_fsync, fd, 0, 0, 0, 0, 0);
+    if (r < 0) { errno = (int)-r; return -1; }
+    return 0;
 }
 
 /* ---- Short reads (files) ----------------------------------------------------------------------
